@@ -6,6 +6,7 @@ pub mod c13;
 pub mod c14;
 pub mod c17;
 pub mod c18;
+pub mod c20;
 pub mod mb;
 pub mod mbchecks;
 
@@ -251,6 +252,14 @@ pub fn all() -> Vec<CheckDef> {
             rule: "mask/text pairs: masks derived from the text by wildcarding/lengthening edits, independent random pairs, and all pairs of strings of length <= 4/5 over {a b * ? e-acute}; non-trivial = mask has a wildcard and a literal and a one-edit neighbour of the text answers differently, or a multi-byte pair with a wildcard; distinct by (wildcard skeleton, text length bucket, answer, ascii/multibyte)",
             level: "exploration",
             assumptions: &["reference glob (refglob.rs, textbook DP over Unicode scalar values, self-tested)"],
+        },
+        CheckDef {
+            id: "C20",
+            run: c20::run,
+            replay: c20::replay,
+            rule: "validation: TOML files generated structurally over the documented fields (each valid / absent / invalid value or type: name without dot, bad hashes, invalid user/operator/channel names, over-long nick, missing mode flags, lone TLS file) x CLI vectors (-n -N -p -l -C -K) against a reference validator - MainConfig::new(Cli::try_parse_from) is Ok iff valid, effective values follow the CLI; hash_roundtrip: password pairs at edit distance <= 1 (ASCII, multi-byte, empty, long) - verify(p', hash(p)) iff p' = p and hash passes validate_password_hash; documented_keys: every leaf key of config-example.toml mutated in turn must change the parsed MainConfig (exhaustive); settings_govern: valid generated configs loaded through MainConfig::new and served in SIM - password right/wrong/none => 001 vs 464+close, welcome burst shows name/network/MOTD/CHANLIMIT, 221 = default_user_modes, 405 at max_joins; binary: the real binary exits non-zero on invalid configs, keeps serving on valid ones, `-g -P p` prints hash(p); non-trivial = config with >= 1 invalid field or CLI override / near-duplicate password pair / each key; distinct by the set of invalid fields and overrides",
+            level: "exploration",
+            assumptions: &["reference validator (c20.rs gen_config) encodes the validation rules named in the statement and config-example.toml", "TLS on/off transcript equality is NOT covered (would need a second feature build and loopback TCP); log output is not checked", "binary part is skipped when /verif/.build/repo-bin is missing; a bind failure of a valid config is not judged"],
         },
     ]
 }
